@@ -527,6 +527,11 @@ func (c *Compiler) compileDefine(
 	if c.iotaVal > -1 && ident == "iota" && keyword == token.Const {
 		return c.error(node, plainError("assignment to iota"))
 	}
+	if exists && symbol.Scope == ScopeGlobal {
+		// a name declared with the global keyword has no local slot: redefining it
+		// (destructuring define) assigns the global.
+		return c.compileAssign(node, symbol, ident)
+	}
 
 	c.emit(node, OpDefineLocal, symbol.Index)
 	symbol.Assigned = true
